@@ -77,6 +77,8 @@ def Store.set (st : Store) (v : Var) (e : Entry) : Store := fun x => if x = v th
 
 def Store.empty : Store := fun _ => none
 
+def Store.erase (st : Store) (vs : List Var) : Store := fun x => if vs.contains x then none else st x
+
 /-- module-level containers: `EDGE_NODE_CONNECTIVITY_ATTRS["inverse_indices"]` -/
 structure Globals where
   edgeSide : Option Term := none
@@ -107,6 +109,7 @@ structure Write where
   withSide : Bool := false   -- the stored variable carries its side table
   leak : Bool := false       -- … and writes it into the module-level template as well
   ranged : Bool := true      -- longitudes come out in [-180, 180]
+  drops : List Var := []     -- variables removed from the store first (`_ds = _ds.drop_dims(dim)`)
   deriving DecidableEq, Repr
 
 structure Unit where
@@ -150,7 +153,7 @@ def doWrite (st0 : Store) (σ : St) (w : Write) : St :=
     let t := mkApp w.fn (w.args.map (argVal σ.1))
     let e : Entry := { val := t, side := if w.withSide then some t else none,
                        ranged := w.ranged, chunked := false }
-    (σ.1.set w.var e, if w.leak then { σ.2 with edgeSide := some t } else σ.2)
+    ((σ.1.erase w.drops).set w.var e, if w.leak then { σ.2 with edgeSide := some t } else σ.2)
   else σ
 
 def lonVars : List Var := [.nodeLL, .edgeLL, .faceLL]
@@ -234,6 +237,7 @@ def wfVar (T : Table) (sig : Var → Bool) (v : Var) : Bool :=
       T.unitOf w.var == T.unitOf v           -- W1 outputs belong to their unit
       && T.rk w.var == T.rk v                -- W9 … and sit at the same depth
       && !w.force && !w.leak && w.ranged     -- W2 no overwrite, no module write, wrapped
+      && w.drops.isEmpty                     --    … and nothing is removed from the store
       && w.withSide == T.sided w.var         -- W7
       && w.guard.all (condOwn T v)           -- W3 presence tests look at own outputs only
       && w.args.all (argOK T v w))           -- W5 inputs are read first (or tested present)
@@ -448,8 +452,15 @@ structure Flags where
   treeKey : Bool := false       -- tree getters compare `coordinates` only
   lineKey : Bool := false       -- `to_linecollection` never records the projection
   rawNodeLon : Bool := false    -- derived `node_lon` left in [0, 360) until some other getter wraps
+  incompleteEdges : Bool := false
+      -- not a code variant but a SOURCE class: the supplied `edge_node_connectivity` does not list every
+      -- edge of the faces, so `_populate_face_edge_connectivity` discards it (2e3b10c9: drops every
+      -- variable along n_edge, re-derives the table)
   staleCount : Bool := false    -- (seeded C08e) the tree wrappers refresh `_n_elements` only when a slot is built
   deriving DecidableEq, Repr
+
+/-- the stored variables along `n_edge` (what `_ds.drop_dims("n_edge")` removes) -/
+def edgeDimVars : List Var := [.edgeLL, .edgeXYZ, .edgeNode, .edgeFace, .enDist, .efDist, .enZ]
 
 open Var in
 /-- transcription of `uxarray/grid/{grid,connectivity,coordinates,neighbors,geometry}.py` -/
@@ -465,6 +476,13 @@ def uxUnit (fl : Flags) (_sig : Var → Bool) : Var → Unit
         ⟨[edgeNode, faceNode],
          [{ var := edgeNode, guard := [.noSide edgeNode], fn := F.buildEdges, args := [.val faceNode],
             force := true, withSide := true, leak := fl.leak },
+          { var := faceEdge, fn := F.reshapeInverse, args := [.side edgeNode] }]⟩
+      else if fl.incompleteEdges then
+        -- the lookup of the faces' edges in the supplied table fails (returns None): every variable along
+        -- n_edge is dropped, the table re-derived, the faces' edges numbered by the new one
+        ⟨[edgeNode, faceNode],
+         [{ var := edgeNode, guard := [.noSide edgeNode], fn := F.buildEdges, args := [.val faceNode],
+            force := true, withSide := true, drops := edgeDimVars },
           { var := faceEdge, fn := F.reshapeInverse, args := [.side edgeNode] }]⟩
       else
         ⟨[edgeNode, faceNode],
